@@ -79,6 +79,9 @@ def build_plain(case):
         gs = s.int_var(1, n)
     elif spec[0] == "fresh-ints":
         gs = [int(str(spec[1])) for _ in range(n)]  # equal values, distinct objects
+    elif spec[0] == "mixed":
+        # no holes: every unspecified entry is a fresh size variable next to plain ints
+        gs = [s.int_var(1, n) if x is None else x for x in spec[1]]
     else:
         gs = list(spec[1])
     form = case["form"]
@@ -155,6 +158,7 @@ def run_plain(part, case):
         part.add("scale", (n, repr(spec)[:40]))
     else:
         part.add("graphs", (n, tuple(edges)))
+        part.add("plain_graphs", (n, tuple(edges)))
 
 
 # ------------------------------------------------------------------ borders
@@ -171,7 +175,7 @@ def build_borders(case):
     extra = []
     kw = {}
     if case["prim"] != "default":
-        kw["use_graph_primitive"] = case["prim"]
+        kw["use_graph_primitive"] = int(case["prim"]) if case.get("intflags") else case["prim"]  # 1 / 0 instead of True / False
     if case["form"] == "graph":
         g = gcheck.make_graph(n, case["edges"], case.get("grown"))
         border = s.bool_array(len(case["edges"]))
@@ -179,6 +183,8 @@ def build_borders(case):
             gs = None
         elif spec[0] == "fresh-ints":
             gs = [int(str(spec[1])) for _ in range(n)]
+        elif spec[0] == "mixed":
+            gs = [s.int_var(1, n) if x is None else x for x in spec[1]]
         else:
             gs = list(spec[1])
         graph.division_connected_variable_groups_with_borders(
@@ -254,6 +260,8 @@ def cases_for(tier):
                 out.append({"variant": "plain", "form": "graph", "n": n, "edges": list(edges), "spec": spec})
                 if name == "list" and n <= 3:
                     out.append({"variant": "plain", "form": "graph", "n": n, "edges": list(edges), "spec": spec, "as_array": True})
+                if name == "list" and (n <= 3 or len(edges) == 3) and any(x is None for x in spec[1]) and any(x is not None for x in spec[1]):
+                    out.append({"variant": "plain", "form": "graph", "n": n, "edges": list(edges), "spec": ("mixed", spec[1])})
             if n <= 4 and edges:
                 out.append({"variant": "plain", "form": "graph", "n": n, "edges": graphref.orient(edges, 1), "spec": ("var",)})
     maxcells = 6 if tier == "quick" else 8
@@ -281,8 +289,13 @@ def cases_for(tier):
                     continue
                 for prim, cfg in ((False, False), (True, False)):
                     out.append({"variant": "borders", "form": "graph", "n": n, "edges": list(edges), "spec": spec, "prim": prim, "cfg": cfg})
+                    if spec is not None and n <= 3 and any(x is None for x in spec[1]) and any(x is not None for x in spec[1]):
+                        out.append({"variant": "borders", "form": "graph", "n": n, "edges": list(edges), "spec": ("mixed", spec[1]), "prim": prim, "cfg": cfg})
             for prim, cfg in (("default", True), ("default", False)):
                 out.append({"variant": "borders", "form": "graph", "n": n, "edges": list(edges), "spec": None, "prim": prim, "cfg": cfg, "as_array": False})
+            if n <= 3:
+                for prim in (False, True):
+                    out.append({"variant": "borders", "form": "graph", "n": n, "edges": list(edges), "spec": None, "prim": prim, "cfg": False, "intflags": True})
     for h, w in graphref.grid_shapes(6 if tier == "quick" else 8, 1):
         n = h * w
         edges = graphref.grid_edges(h, w)
@@ -296,6 +309,22 @@ def cases_for(tier):
                 continue
             for prim, cfg in ((False, False), (True, False)):
                 out.append({"variant": "borders", "form": "inner-frame", "shape": [h, w], "n": n, "edges": edges, "spec": spec, "prim": prim, "cfg": cfg})
+    # structured mid-sized graphs (cycles sharing a vertex, degree-4 trees, isolated vertices): all set partitions / all border patterns
+    for name, n, es in graphref.zoo():
+        relab = name.endswith("~relabelled")
+        lists = [("list", [None] * (n - 1) + [3]), ("list", [2] + [None] * (n - 1)), ("list", [None] * (n // 2) + [n - 2] + [None] * (n - n // 2 - 1))]
+        if n <= (5 if tier == "quick" else 7):
+            specs = [None, ("var",), ("const", 2)] + lists + [("mixed", l[1]) for l in lists]
+            if tier == "quick":
+                specs = specs[0::2] if relab else specs[1::2]
+            for spec in specs:
+                out.append({"variant": "plain", "form": "graph", "n": n, "edges": list(es), "spec": spec, "name": name})
+        if len(es) <= (8 if tier == "quick" else 10):
+            for spec in [None] + lists[:1 if tier == "quick" else 3]:
+                for prim in (False, True):
+                    if tier == "quick" and (prim != relab):
+                        continue
+                    out.append({"variant": "borders", "form": "graph", "n": n, "edges": list(es), "spec": spec, "prim": prim, "cfg": False, "name": name})
     return out
 
 
@@ -326,6 +355,30 @@ def scale_cases(tier):
             if n >= 15 and spec is not None and spec[0] == "list":
                 continue  # a single z3 query of the size encoding takes ~1 min there
             out.append({"variant": "plain", "form": "grid", "shape": [h, w], "n": n, "spec": spec, "partitions": parts})
+    # winding blocks on mid-sized boards (a block whose internal radius exceeds the board's diameter), sizes unspecified
+    for h, w in ([(5, 6), (6, 5), (6, 6)] if tier == "quick" else [(5, 5), (5, 6), (6, 5), (6, 6), (7, 7), (4, 9), (9, 4), (8, 8)]):
+        n = h * w
+        cid = lambda c: c[0] * w + c[1]  # noqa: E731
+        corridor = [cid(c) for c in graphref.serpentine(h, w)]
+        rest = [(y, x) for y in range(h) for x in range(w) if cid((y, x)) not in set(corridor)]
+        comps = [sorted(cid(c) for c in comp) for comp in rbase.components(rest)]
+        order = [cid(c) for c in graphref.serpentine_order(h, w)]
+        good = [sorted(corridor)] + comps
+        cut = [sorted(order[: len(order) // 2]), sorted(order[len(order) // 2 :])] + comps
+        parts = [good, cut, [sorted(range(n))], [sorted(corridor), sorted(comps[0] + comps[1])] + comps[2:]]
+        out.append({"variant": "plain", "form": "grid", "shape": [h, w], "n": n, "spec": None, "partitions": parts})
+        out.append({"variant": "plain", "form": "graph", "n": n, "edges": graphref.orient(graphref.grid_edges(h, w), 3), "spec": None, "partitions": parts[:2]})
+        edges = graphref.grid_edges(h, w)
+        pats = []
+        for blocks in parts[:3]:
+            where = {}
+            for k, b in enumerate(blocks):
+                for v in b:
+                    where[v] = k
+            pats.append([where[u] != where[v] for u, v in edges])
+        pats.append([False] + pats[0][1:])  # a border segment missing inside ... or a wall removed: judged by the oracle
+        for prim in (False, True):
+            out.append({"variant": "borders", "form": "inner-frame", "shape": [h, w], "n": n, "edges": edges, "spec": None, "prim": prim, "cfg": False, "patterns": pats})
     # large family: sizes >= 257 given as distinct int objects (as a parser would produce them), one long block
     for n in ((258,) if tier == "quick" else (257, 258, 300)):
         path = [(i, i + 1) for i in range(n - 1)]
@@ -357,7 +410,7 @@ def prepare(tier):
     return _CASES
 
 
-_BELL = [1, 1, 2, 5, 15, 52, 203, 877, 4140]
+_BELL = [1, 1, 2, 5, 15, 52, 203, 877, 4140, 21147, 115975, 678570, 4213597]
 
 
 def size_of(c):
@@ -405,7 +458,7 @@ def main(tier, seed, only=None):
     par.run_shards(run, worker, shards, seed)
     cov = {
         "evaluations": run.c("evaluations"),
-        "distinct_nontrivial": sum(_BELL[g[0]] for g in run.total.sets.get("graphs", ())) + sum(1 << len(g[1]) for g in run.total.sets.get("border_graphs", ())),
+        "distinct_nontrivial": sum(_BELL[g[0]] for g in run.total.sets.get("plain_graphs", ())) + sum(1 << len(g[1]) for g in run.total.sets.get("border_graphs", ())),
         "graphs": run.n("graphs"),
         "cases": len(cases),
         "exhaustive": True,
